@@ -12,6 +12,7 @@ and C15 (keys are routed to exactly one bucket by the top hash digits).
 import json, os, random, re, time, hashlib
 import vcommon as V
 
+READY = True
 PROPS = {
  'C08': dict(level='model_checking', design='DESIGN.md 6 C08',
    text='HTreeList.tla defines the listing (16-bit leaf sums, lazy *97 fold, upper tree, item/node shape) as a pure '
